@@ -578,7 +578,8 @@ def noTracebackRows : List HandlerRow := [%s]
 
 end TTV.Generated.C01
 ''' % (', '.join('.' + r for r in rows), ', '.join('.' + r for r in notb))
-    return {'TTV/Generated/C01.lean': text}
+    from harness import pyskel
+    return {'TTV/Generated/C01.lean': text, 'TTV/Generated/RunSkel.lean': pyskel.generate(repo)}
 
 
 # ------------------------------------------------------------------ generator
